@@ -602,7 +602,10 @@ def c12(run):
         rv = sorted(set([0, 1, 15, 16, 17, 31, 128, 240, 255] + [rnd.randrange(256) for _ in range(4)]))
         if w in cover:
             rv = list(range(256))
-        scen.append(json.dumps({"do": "hdr", "w": w, "tid": rnd.randrange(65536), "xfl": rnd.choice([-1, 0x8000, 0, 0xffff]),
+        # the packet around the header varies too: small, larger than 512 bytes, larger than the payload its OPT
+        # record advertises (512 / 1232 / 4096 / 65535), larger than 8192
+        pad, payload = [(0, 1232), (600, 512), (1300, 1232), (0, 65535), (5000, 4096), (9000, 1232), (700, 65535)][len(scen) % 7]
+        scen.append(json.dumps({"do": "hdr", "w": w, "tid": rnd.randrange(65536), "xfl": rnd.choice([-1, 0x8000, 0, 0xffff]), "pad": pad, "payload": payload,
                                 "fa": fa, "rv": rv, "ov": rv, "tv": [0, 1, 255, 256, 65535, rnd.randrange(65536)]}, separators=(",", ":")))
     if not quick(run):
         scen.append(json.dumps({"do": "decomp", "threads": vlib.NCPU}))
